@@ -51,7 +51,7 @@ def one_run(sys_seed, np_seed, niter, opts, kind, tmp):
     np.random.seed(np_seed)
     try:
         with contextlib.redirect_stdout(sink), contextlib.redirect_stderr(sink):
-            system.fit(max_iter=niter, num_refine=12, max_tol=-1.0, test_set=test_set, save_interval=opts['save_interval'],
+            system.fit(max_iter=niter, num_refine=12, max_tol=opts.get('max_tol', -1.0), test_set=test_set, save_interval=opts['save_interval'],
                        plot_interval=opts['plot_interval'], start_test_check=1)      # the test set is evaluated from the first iteration on
     finally:
         logging.disable(logging.CRITICAL)
@@ -60,7 +60,8 @@ def one_run(sys_seed, np_seed, niter, opts, kind, tmp):
     pred = system.predict(xq)
     st = systems.system_state(system)
     return {'digest': systems.digest(st), 'rng': fp, 'pred': {k: np.asarray(v).tolist() for k, v in pred.items()},
-            'history': [(h['component'], h['alpha'], h['beta'], h['num_evals']) for h in st['history']], 'state': st}
+            'history': [(h['component'], h['alpha'], h['beta'], h['num_evals']) for h in st['history']], 'state': st,
+            'errors': [float(h['added_error']) for h in st['history']]}
 
 
 def run(ctx: Ctx):
@@ -85,6 +86,18 @@ def run(ctx: Ctx):
             todo = combos[1:] if not ctx.quick else rng.sample(combos[1:], 13)
             if ctx.quick:     # always include the combinations that switch on every monitoring branch
                 todo += [c for c in combos if c['test_set'] and c['root_dir'] and c['plot_interval'] == 1 and c['log'] == 'none'][:2]
+            # a run that ends because the tolerance is met (not the iteration limit): with and without a root directory
+            errs = sorted(e for e in base['errors'] if e == e and e > 0)
+            if len(errs) >= 2:
+                tol = errs[-2] * 1.0001
+                base_t = one_run(sys_seed, np_seed, niter, {**base_opts, 'max_tol': tol}, kind, tmp)
+                for o_ in ({**base_opts, 'root_dir': True, 'max_tol': tol}, {**base_opts, 'root_dir': True, 'save_interval': 2, 'test_set': True, 'max_tol': tol}):
+                    case_t = {'system_seed': sys_seed, 'kind': kind, 'numpy_seed': np_seed, 'iterations': niter, 'options': o_}
+                    ctx.case(case_t, nontrivial=True, kind=kind + ':tolerance-stop')
+                    r_t = one_run(sys_seed, np_seed, niter, o_, kind, tmp)
+                    if r_t['history'] != base_t['history'] or r_t['digest'] != base_t['digest']:
+                        ctx.violate('C19:refinement-choices-change', f'options {o_}: training stopped by max_tol={tol} after {len(r_t["history"])} steps, the run '
+                                    f'without monitoring after {len(base_t["history"])}', case_t)
             if kind == 'chain':      # one more combination per chain system: a test set of more than a thousand samples
                 todo = todo + [{'test_set': 'large', 'save_interval': 0, 'plot_interval': 0, 'root_dir': False, 'log': 'none'}]
             for opts in todo:
